@@ -678,25 +678,94 @@ impl HashSet<String> {
 }
 // error payload only; no property reads it
 #[verifier::external_body] pub fn collect_strings(v: Vec<&str>) -> (r: Vec<String>) { unimplemented!() }
-// rule R5 helper: the set of strings of the list (definition of `into_iter().map(..).collect::<HashSet<String>>()`; assumed)
-#[verifier::external_body]
+// rule R5 helper: the set of strings of the list (what `into_iter().map(..).collect::<HashSet<String>>()` builds); verified
 pub fn attr_names(v: Vec<ProvAttribute>) -> (r: HashSet<String>)
     ensures forall|s: Seq<char>| #![trigger r@.contains(s)] #![trigger in_names(v@, s)] r@.contains(s) <==> in_names(v@, s)
-{ unimplemented!() }
-// rule R5 helper: the set of strings of the list (definition of `into_iter().map(..).collect::<HashSet<String>>()`; assumed)
-#[verifier::external_body]
+{
+    let mut out = HashSet::<String>::new();
+    let mut i: usize = 0;
+    while i < v.len()
+        invariant 0 <= i <= v@.len(),
+            forall|s: Seq<char>| #[trigger] out@.contains(s) <==> exists|j: int| 0 <= j < i && (#[trigger] v@[j]).name@ == s,
+        decreases v@.len() - i,
+    {
+        out.insert(v[i].name.clone());
+        i = i + 1;
+    }
+    proof {
+        assert forall|s: Seq<char>| #![trigger out@.contains(s)] #![trigger in_names(v@, s)] out@.contains(s) <==> in_names(v@, s) by {
+            if out@.contains(s) { let j = choose|j: int| 0 <= j < i && (#[trigger] v@[j]).name@ == s; assert(in_names(v@, s)); }
+            if in_names(v@, s) { let j = choose|j: int| 0 <= j < v@.len() && (#[trigger] v@[j]).name@ == s; assert(0 <= j < i && (#[trigger] v@[j]).name@ == s); }
+        }
+    }
+    out
+}
+// rule R5 helper: the set of strings of the list (what `into_iter().map(..).collect::<HashSet<String>>()` builds); verified
 pub fn addr_string_set(v: Vec<Addr>) -> (r: HashSet<String>)
     ensures forall|s: Seq<char>| #![trigger r@.contains(s)] #![trigger in_addrs(v@, s)] r@.contains(s) <==> in_addrs(v@, s)
-{ unimplemented!() }
-// rule R5 helper: the set of strings of the list (definition of `into_iter().map(..).collect::<HashSet<String>>()`; assumed)
-#[verifier::external_body]
+{
+    let mut out = HashSet::<String>::new();
+    let mut i: usize = 0;
+    while i < v.len()
+        invariant 0 <= i <= v@.len(),
+            forall|s: Seq<char>| #[trigger] out@.contains(s) <==> exists|j: int| 0 <= j < i && (#[trigger] v@[j]).s@ == s,
+        decreases v@.len() - i,
+    {
+        out.insert(v[i].s.clone());
+        i = i + 1;
+    }
+    proof {
+        assert forall|s: Seq<char>| #![trigger out@.contains(s)] #![trigger in_addrs(v@, s)] out@.contains(s) <==> in_addrs(v@, s) by {
+            if out@.contains(s) { let j = choose|j: int| 0 <= j < i && (#[trigger] v@[j]).s@ == s; assert(in_addrs(v@, s)); }
+            if in_addrs(v@, s) { let j = choose|j: int| 0 <= j < v@.len() && (#[trigger] v@[j]).s@ == s; assert(0 <= j < i && (#[trigger] v@[j]).s@ == s); }
+        }
+    }
+    out
+}
+// rule R5 helper: the set of strings of the list (what `into_iter().map(..).collect::<HashSet<String>>()` builds); verified
 pub fn string_set(v: Vec<String>) -> (r: HashSet<String>)
     ensures forall|s: Seq<char>| #![trigger r@.contains(s)] #![trigger in_strs(v@, s)] r@.contains(s) <==> in_strs(v@, s)
-{ unimplemented!() }
-#[verifier::external_body]
+{
+    let mut out = HashSet::<String>::new();
+    let mut i: usize = 0;
+    while i < v.len()
+        invariant 0 <= i <= v@.len(),
+            forall|s: Seq<char>| #[trigger] out@.contains(s) <==> exists|j: int| 0 <= j < i && (#[trigger] v@[j])@ == s,
+        decreases v@.len() - i,
+    {
+        out.insert(v[i].clone());
+        i = i + 1;
+    }
+    proof {
+        assert forall|s: Seq<char>| #![trigger out@.contains(s)] #![trigger in_strs(v@, s)] out@.contains(s) <==> in_strs(v@, s) by {
+            if out@.contains(s) { let j = choose|j: int| 0 <= j < i && (#[trigger] v@[j])@ == s; assert(in_strs(v@, s)); }
+            if in_strs(v@, s) { let j = choose|j: int| 0 <= j < v@.len() && (#[trigger] v@[j])@ == s; assert(0 <= j < i && (#[trigger] v@[j])@ == s); }
+        }
+    }
+    out
+}
+// `E.clone().into_iter().collect::<HashSet<String>>()` (rule R5): the set of strings of E; verified
 pub fn string_set_ref(v: &Vec<String>) -> (r: HashSet<String>)
     ensures forall|s: Seq<char>| #![trigger r@.contains(s)] #![trigger in_strs(v@, s)] r@.contains(s) <==> in_strs(v@, s)
-{ unimplemented!() }
+{
+    let mut out = HashSet::<String>::new();
+    let mut i: usize = 0;
+    while i < v.len()
+        invariant 0 <= i <= v@.len(),
+            forall|s: Seq<char>| #[trigger] out@.contains(s) <==> exists|j: int| 0 <= j < i && (#[trigger] v@[j])@ == s,
+        decreases v@.len() - i,
+    {
+        out.insert(v[i].clone());
+        i = i + 1;
+    }
+    proof {
+        assert forall|s: Seq<char>| #![trigger out@.contains(s)] #![trigger in_strs(v@, s)] out@.contains(s) <==> in_strs(v@, s) by {
+            if out@.contains(s) { let j = choose|j: int| 0 <= j < i && (#[trigger] v@[j])@ == s; assert(in_strs(v@, s)); }
+            if in_strs(v@, s) { let j = choose|j: int| 0 <= j < v@.len() && (#[trigger] v@[j])@ == s; assert(0 <= j < i && (#[trigger] v@[j])@ == s); }
+        }
+    }
+    out
+}
 pub fn any_missing(req: &Vec<String>, names: &HashSet<String>) -> (r: bool)
     ensures r == exists|i: int| 0 <= i < req@.len() && !names@.contains((#[trigger] req@[i])@)
 {
